@@ -47,7 +47,7 @@ def gen_c06_random(rnd, tier):
                     pts.pop()
         for _r in range(6 if tier == 'quick' else 10):
             o = [rnd.randint(-3, 66), rnd.randint(-3, 66), 0]
-            out.append({'m': 'ray', 'op': 'cast', 'pts': pts, 'sc': rnd.choice((0, -3, 2)), 'o': o, 'dirs': rnd.sample(DIRS, 5)})
+            out.append({'m': 'ray', 'op': 'cast', 'pts': pts, 'sc': rnd.choice((0, -3, 2)), 'o': o, 'dirs': DIRS[:4] + rnd.sample(DIRS[4:], 3), 'nzd': rnd.choice((0, 1))})
     return out
 
 
